@@ -1200,6 +1200,15 @@ pub fn generate(ctx: &Ctx, prop: &str, rng: &mut Rng64, thorough: bool, index: u
             let q = if rng.chance(500) { pos.clone() } else { pick_position(ctx, rng) };
             case.searches.push(SearchSpec { fen: q.fen(), depth: Some(2), seed: rng.next(), entry: Entry::Sync { workers: Some(1) }, rayon_threads: 1, fresh: false, history: vec![], faults: vec![] });
         }
+        "C06" if rng.chance(100) => {
+            // mates in one by a special kind of move (double check, discovered check, promotion,
+            // pawn move, capture): the leaf-level mate detection sees each kind differently
+            case.dims = *rng.pick(&[(8usize, 1024usize), (8, 64)]);
+            let (_, fen, _) = *rng.pick(corpus::SPECIAL_MATES);
+            let w = *rng.pick(&[1usize, 1, 2, 4]);
+            let (entry, rt) = if rng.chance(600) { (Entry::Sync { workers: Some(w) }, w) } else { (Entry::Public, w) };
+            case.searches.push(SearchSpec { fen: fen.to_string(), depth: Some(1 + rng.below(3) as u32), seed: rng.next(), entry, rayon_threads: rt, fresh: true, history: vec![], faults: vec![] });
+        }
         "C06" => {
             case.dims = *rng.pick(&[(8usize, 1024usize), (8, 64)]);
             let kind = rng.below(100);
